@@ -33,6 +33,12 @@ CAT = [
  ("x_capacity_divider_5", "v2/priority/internal/common/consts.go", "	DefaultCapacityDivider = 10", "	DefaultCapacityDivider = 1", ["C01", "C07"], "silent"),
  ("x_close_order_swapped", V2, "	defer close(dsc.output)\n	defer close(dsc.feedback)", "	defer close(dsc.feedback)\n	defer close(dsc.output)", ["C07", "C19"], "silent"),
  ("x_error_wrapped", "v2/priority/assist.go", "	if after-before != dividend {\n		return ErrDividerBad\n	}", "	if after-before != dividend {\n		return errors.Join(ErrDividerBad, errors.New(\"added total differs from the dividend\"))\n	}", ["C15"], "silent"),
+ ("x_join_output_cap_1", "v2/join/join.go", "		output:  make(chan []Type, 1+cap(opts.Input)),", "		output:  make(chan []Type, 1),", ["C03", "C09", "C10"], "silent"),
+ ("x_join_fresh_buffer_copy_mode", "v2/join/join.go", "func (dsc *Discipline[Type]) resetJoin() {\n	dsc.join = dsc.join[:0]", "func (dsc *Discipline[Type]) resetJoin() {\n	if !dsc.opts.NoCopy {\n		dsc.join = make([]Type, 0, dsc.opts.JoinSize)\n		return\n	}\n	dsc.join = dsc.join[:0]", ["C03", "C08"], "silent"),
+ ("x_join_clone_by_append", "v2/join/join.go", "	return slices.Clone(item)", "	return append(make([]Type, 0, 2*len(item)), item...)", ["C03", "C08", "C20"], "silent"),
+ ("x_join_timeouted_strict", "v2/join/join.go", "	return time.Since(dsc.passAt) >= dsc.opts.Timeout", "	return time.Since(dsc.passAt) > dsc.opts.Timeout", ["C09", "C10"], "silent"),
+ ("x_limit_delay_guard", "v2/limit/limit.go", "	time.Sleep(remainder)", "	if remainder > 0 {\n		time.Sleep(remainder)\n	}", ["C04", "C12"], "silent"),
+ ("x_limit_timer_instead_of_sleep", "v2/limit/limit.go", "	time.Sleep(remainder)", "	if remainder <= 0 {\n		return\n	}\n	timer := time.NewTimer(remainder)\n	defer timer.Stop()\n	<-timer.C", ["C04", "C12", "C19"], "silent"),
  ("x_polling_order_low_to_high", V2, "	for _, priority := range dsc.priorities {\n		if dsc.inputs[priority].Drained {\n			continue\n		}\n\n		if cap(dsc.inputs[priority].Channel) != 0 {", "	for i := len(dsc.priorities) - 1; i >= 0; i-- {\n		priority := dsc.priorities[i]\n		if dsc.inputs[priority].Drained {\n			continue\n		}\n\n		if cap(dsc.inputs[priority].Channel) != 0 {", ["C02", "C01"], "silent"),
 ]
 
